@@ -62,7 +62,7 @@ def check (line : String) : String :=
         let ob : Obs := { dA, dB, aEmpty := ea, bEmpty := eb, m, mt, pm, p, pb, q, qb,
                           pats := pats.map (fun x => (x.1, x.2.1, x.2.2.1)), self }
         let nov := match flattenPair ga.g gb.g with
-          | some (A, B) => if nearIncidence A.f B.f then "1" else "0"
+          | some (A, B) => if inexactIncidence A.f B.f then "1" else if nearIncidence A.f B.f then (if exactOverlap A.f B.f then "xo" else "x") else "0"
           | none => "?"
         if !consistent ob then
           -- name the first conjunct that fails
